@@ -21,6 +21,7 @@ import (
 	"math"
 	"os"
 	"runtime/debug"
+	"sort"
 	"strings"
 
 	"github.com/spf13/afero"
@@ -288,8 +289,8 @@ func runHelper(c hcase) (res hresult) {
 		res.out = sw.buf
 	case "CtxReader":
 		r := safeio.NewContextualReader(e.ctx, c.reader(e))
-		sizes := []int{1, 3, 64}
-		p := make([]byte, 64)
+		sizes := []int{1, 3, 64 + c.L/4}
+		p := make([]byte, sizes[2])
 		for i := 0; i < 1<<16; i++ {
 			n, err := r.Read(p[:sizes[i%3]])
 			res.out = append(res.out, p[:n]...)
@@ -303,7 +304,7 @@ func runHelper(c hcase) (res hresult) {
 		w, sw := c.writer(e)
 		cw := safeio.ContextualWriter(e.ctx, w)
 		data := sourceBytes[:c.L]
-		sizes := []int{1, 3, 64}
+		sizes := []int{1, 3, 64 + c.L/4}
 		for i := 0; len(data) > 0 || i == 0; i++ { // an empty source still makes one (empty) Write
 			k := min(sizes[i%3], len(data))
 			n, err := cw.Write(data[:k])
@@ -626,6 +627,8 @@ func helperJobs(thorough bool) []helperJob {
 			jobs = append(jobs, helperJob{fn, l, false})
 		}
 	}
+	// the costliest jobs first
+	sort.SliceStable(jobs, func(a, b int) bool { return jobs[a].L > jobs[b].L })
 	return jobs
 }
 
@@ -670,7 +673,11 @@ func families(j helperJob) []family {
 	}
 	if !j.Small {
 		L := j.L
-		f := family{scripts: scriptsBigSet, wvs: healthyW,
+		scripts := scriptsBigSet
+		if L >= 1<<19 {
+			scripts = [][]int{{}, {0, 1, 2}, {1, 1, 1, 1}} // every run moves a mebibyte
+		}
+		f := family{scripts: scripts, wvs: healthyW,
 			rvs: []readerVariant{{ErrAt: -1}, {ErrAt: -1, EOFWData: true}, {ErrAt: 8}, {ErrAt: L - 1, ErrWithData: true, ErrEOFKind: true}}}
 		if usesWriter {
 			f.wvs = append(f.wvs, failingW[len(failingW)-1])
